@@ -104,3 +104,29 @@ Check load_keeps_event_log :
   forall (sp : ssite -> bool) (ssw : save_switches) (w : world) (j : json),
     w_events (snd (load_state sp ssw w j)) = w_events w.
 Print Assumptions load_keeps_event_log.
+
+(* ---------------- a continue that returns normally leaves nothing undelivered ----------------
+   With a handler registered, when Story::cont / continue_async (continue_internal) returns Ok no error and
+   no warning is left pending: everything raised by the line(s) just played went to the handler in this call. *)
+From Ink.Shell Require Import DeliveryAll.
+Theorem cont_leaves_nothing_undelivered :
+  forall (I : iface) (w : world) (t : text) (w' : world),
+    api_cont I sw_now w = (OOk t, w') -> w_handler w' = true ->
+    ss_errors (w_state w') = [] /\ ss_warnings (w_state w') = [].
+Proof. exact DeliveryAll.cont_leaves_nothing_undelivered. Qed.
+Check cont_leaves_nothing_undelivered :
+  forall (I : iface) (w : world) (t : text) (w' : world),
+    api_cont I sw_now w = (OOk t, w') -> w_handler w' = true ->
+    ss_errors (w_state w') = [] /\ ss_warnings (w_state w') = [].
+Print Assumptions cont_leaves_nothing_undelivered.
+
+Theorem continue_async_leaves_nothing_undelivered :
+  forall (I : iface) (limited : bool) (w w' : world),
+    continue_async I sw_now limited w = (OOk tt, w') -> w_handler w' = true ->
+    ss_errors (w_state w') = [] /\ ss_warnings (w_state w') = [].
+Proof. exact DeliveryAll.continue_async_leaves_nothing_undelivered. Qed.
+Check continue_async_leaves_nothing_undelivered :
+  forall (I : iface) (limited : bool) (w w' : world),
+    continue_async I sw_now limited w = (OOk tt, w') -> w_handler w' = true ->
+    ss_errors (w_state w') = [] /\ ss_warnings (w_state w') = [].
+Print Assumptions continue_async_leaves_nothing_undelivered.
